@@ -25,7 +25,7 @@ pub struct C11;
 
 /// the bytes an address is hashed from, written from the statement ("their address bytes"):
 /// peer id bytes, raw key bytes, or the 32-byte name of a typed address
-fn addr_bytes(a: &NetworkAddress) -> Vec<u8> {
+pub(crate) fn addr_bytes(a: &NetworkAddress) -> Vec<u8> {
     match a {
         NetworkAddress::PeerId(b) | NetworkAddress::RecordKey(b) => b.to_vec(),
         NetworkAddress::ChunkAddress(c) => c.xorname().0.to_vec(),
@@ -39,7 +39,7 @@ fn rd(a: &NetworkAddress, b: &NetworkAddress) -> D32 {
     ref_distance(&addr_bytes(a), &addr_bytes(b))
 }
 
-fn kind_of(a: &NetworkAddress) -> &'static str {
+pub(crate) fn kind_of(a: &NetworkAddress) -> &'static str {
     match a {
         NetworkAddress::PeerId(_) => "peer",
         NetworkAddress::ChunkAddress(_) => "chunk",
@@ -50,7 +50,7 @@ fn kind_of(a: &NetworkAddress) -> &'static str {
     }
 }
 
-fn random_addr(rng: &mut impl Rng) -> NetworkAddress {
+pub(crate) fn random_addr(rng: &mut impl Rng) -> NetworkAddress {
     match rng.gen_range(0..6) {
         0 => NetworkAddress::from_peer(PeerId::from(gen::ed_keypair(rng).public())),
         1 => NetworkAddress::from_chunk_address(ChunkAddress::new(XorName(rng.gen()))),
@@ -68,7 +68,7 @@ fn peers(rng: &mut impl Rng, n: usize) -> Vec<PeerId> {
     (0..n).map(|_| PeerId::from(gen::ed_keypair(rng).public())).collect()
 }
 
-fn sorted_ref(ps: &[PeerId], target: &NetworkAddress) -> Vec<PeerId> {
+pub(crate) fn sorted_ref(ps: &[PeerId], target: &NetworkAddress) -> Vec<PeerId> {
     let mut v: Vec<(D32, PeerId)> = ps.iter().map(|p| (ref_distance(&p.to_bytes(), &addr_bytes(target)), *p)).collect();
     v.sort();
     v.into_iter().map(|(_, p)| p).collect()
@@ -102,9 +102,15 @@ impl Check for C11 {
         tier.pick(std::time::Duration::from_secs(120), std::time::Duration::from_secs(1200))
     }
     fn required_counters(&self, _tier: Tier) -> Vec<&'static str> {
-        vec!["pairs:leading-zero-bytes", "pairs:typed-vs-raw", "sort:not-enough-peers", "replicate-candidates-judged", "store-range-counts-judged", "farthest-after-restart-judged"]
+        vec!["pairs:leading-zero-bytes", "pairs:typed-vs-raw", "sort:not-enough-peers", "replicate-candidates-judged", "store-range-counts-judged", "farthest-after-restart-judged", "realnet:closest-peer-selections-judged"]
+    }
+    fn lane_cases(&self, tier: Tier) -> u64 {
+        tier.pick(6, 48)
     }
     fn run_case(&self, cx: &mut Cx) {
+        if cx.index >= LANE_BASE {
+            return crate::realcases::c11_case(cx);
+        }
         // ---- (1) pairs
         let mut pairs: Vec<(NetworkAddress, NetworkAddress, &'static str)> = vec![];
         for _ in 0..40 {
